@@ -445,3 +445,5 @@ func (s *Scenario) checkRendering() string {
 	}
 	return ""
 }
+
+func isRangeReq(r string) bool { return strings.HasPrefix(r, "[") || strings.HasPrefix(r, "(") }
